@@ -31,20 +31,4 @@ def countersSized (t : String) (ps : List (String × String)) (stats : List Stri
     | some live => allocOf t f == allocOf t live
     | none => false
 
-theorem snapshot_buffers_sized :
-    pairsSized "LinearMemory" LinearMemory_TakeSnapshot = true ∧
-    pairsSized "X16Memory" X16Memory_TakeSnapshot = true ∧
-    pairsSized "NeoGeoRam" NeoGeoRam_TakeSnapshot = true ∧
-    pairsSized "F256RevBMemory" F256RevBMemory_TakeSnapshot = true := by decide
-
-theorem counters_sized :
-    countersSized "LinearMemory" LinearMemory_TakeSnapshot LinearMemory_ClearStatistics = true ∧
-    countersSized "X16Memory" X16Memory_TakeSnapshot X16Memory_ClearStatistics = true ∧
-    countersSized "NeoGeoRam" NeoGeoRam_TakeSnapshot NeoGeoRam_ClearStatistics = true ∧
-    countersSized "F256RevBMemory" F256RevBMemory_TakeSnapshot F256RevBMemory_ClearStatistics = true := by decide
-
--- non-vacuity: the lookups find something
-example : allocOf "X16Memory" "bankedRAM8KSnaphot" = some "ramBlocks * 8192" := by decide
-example : liveFieldOf X16Memory_TakeSnapshot "statBankedRam" = some "bankedRAM8K" := by decide
-
 end Verif.Facts
